@@ -622,6 +622,7 @@ func C06(run *report.Run) {
 		// uncomparable value types (slices, structs holding slices and maps): values are compared during the merge
 		world.IntCfg(2, []int{1, 2, 4}, []interface{}{[]int{1}, []int{2, 3}}, []int{}, B, "none"),
 		world.IntCfg(2, []int{1, 2, 4}, []interface{}{world.TVal{Tags: []string{"x"}}, world.TVal{Tags: []string{"y"}, M: map[string]int{"q": 1}}}, world.TVal{}, M, "none"),
+		nilValues(world.IntCfg(2, []int{1, 2, 3, 4, 8}, []interface{}{nil}, nil, B, "none")),
 	}
 	if run.Thorough() {
 		cfgs = append(cfgs, world.UintCfg(2, urange(1, 5), 2, B, "none"), world.UintCfg(3, ulist(1, 2, 3, 4, 6, 9), 1, B, "none"))
@@ -676,6 +677,12 @@ func C06(run *report.Run) {
 	run.Distinct = acc.nontr
 	run.AddSample(map[string]interface{}{"pair": "every ordered pair (old,new) of reachable single-tree states, e.g. old=[ins 1, persist, ins 2] new=[ins 2, del 2, ins 3]", "observed": "DiffIter, StartDiff/NextEntry, DiffIter stopped / failing at each callback index"})
 	run.Rule = "states = single-tree closure (engine W) of each configuration; every ordered pair of states (unrelated trees, each in its own store) plus old=nil, plus related pairs (clone / reload of every base state followed by every sequence of <=L ops on either side, trees sharing in-memory nodes); non-trivial = pairs whose contents differ; oracle = merge of the two trees' contents read by per-key Get"
+}
+
+// nilValues: a tree used as a set (ValuesLike=nil, registered types).
+func nilValues(c *world.Config) *world.Config {
+	c.RegisteredTypes = true
+	return c
 }
 
 // relatedPairs: base state -> capture (clone | reload into second slot) -> <=L ops on either tree -> diff both ways.
